@@ -14,6 +14,16 @@ def depth_for(tier): return 4 if tier == 'quick' else 5
 
 
 def run_config(args):
+    try:
+        return _run_config(args)
+    except PathEnd as e:
+        raise
+    except Exception as e:
+        import traceback
+        return dict(config=args[0], histories=0, obligations=0, discharged=0, sat=[], problems=['worker exception: ' + traceback.format_exc()[-400:]], paths=0, panics=0, fns={}, models=[], sample=None)
+
+
+def _run_config(args):
     config, tier = args
     ctx = Ctx(_G['prog'], _G['enums'])
     m = ctx.machine()
@@ -60,7 +70,7 @@ def run_config(args):
 
 
 def replay_history(config, ops, dts=None):
-    """concrete realisation: component k moves x linearly from 10(k+1) to 100(k+1) in 5+k s"""
+    """concrete realisation: component k moves x linearly from 10(k+1) to 100(k+1) in 5+k s after a delay of 2k s"""
     it = iter(dts or [])
     return {'kind': 'animator_history', 'config': ['none' if c is None else ('merged' if len(c) > 1 else 'single') for c in config],
             'ops': [('adv:%s' % next(it, 1.5) if o[0] == 'adv' else 'set:%d' % o[1]) for o in ops]}
